@@ -1,6 +1,29 @@
 // C19 — concurrency (and the threaded half of C18). E4: real threads of the real (tsan-instrumented) library under the
 // serialising scheduler libvsrt, ALL schedules with <= P preemptions, in-schedule happens-before race monitor.
+// The same scenario bodies are also compiled with -DC19_FREERUN against the real libtsan (no scheduler): that free-running
+// pass is the second, independent confirmation of a race the in-schedule monitor reports on the documented surface.
+#ifdef C19_FREERUN
+#include "vf.hpp"
+#include <chrono>
+namespace tse
+{
+    struct Out
+    {
+        std::string obs;
+        std::vector<std::pair<std::string, std::string>> fails;
+        void fail(const std::string &k, const std::string &w)
+        {
+            fails.push_back({k, w});
+        }
+    };
+}
+static long long vs_now_ns()
+{
+    return std::chrono::duration_cast<std::chrono::nanoseconds>(std::chrono::steady_clock::now().time_since_epoch()).count();
+}
+#else
 #include "tse.hpp"
+#endif
 #include "path_oracle.hpp"
 #include <ompl/base/SpaceInformation.h>
 #include <ompl/base/ProblemDefinition.h>
@@ -72,20 +95,26 @@ static void scMotion(tse::Out &out)
         out.fail("C19|motion|counter-lost-update", "after 4 checkMotion calls (2 valid, 2 invalid) the counters read valid=" + std::to_string(nv) + " invalid=" + std::to_string(ni));
 }
 
+struct GnatPt
+{
+    double x, y;
+    bool operator==(const GnatPt &o) const
+    {
+        return x == o.x && y == o.y;
+    }
+    bool operator!=(const GnatPt &o) const
+    {
+        return !(*this == o);
+    }
+};
+static std::ostream &operator<<(std::ostream &o, const GnatPt &p)
+{
+    return o << p.x << ',' << p.y;
+}
+template class ompl::NearestNeighborsGNAT<GnatPt>;  // explicit instantiation: named, exported symbols for the race reports
 static void scGnat(tse::Out &out)
 {
-    struct P
-    {
-        double x, y;
-        bool operator==(const P &o) const
-        {
-            return x == o.x && y == o.y;
-        }
-        bool operator!=(const P &o) const
-        {
-            return !(*this == o);
-        }
-    };
+    using P = GnatPt;
     ompl::NearestNeighborsGNAT<P> nn(2, 2, 3, 2);
     nn.setDistanceFunction([](const P &a, const P &b) { return std::fabs(a.x - b.x) + std::fabs(a.y - b.y); });
     std::vector<P> pts;
@@ -413,6 +442,95 @@ static std::vector<Scenario> scenarios()
     };
 }
 
+#ifndef C19_FREERUN
+// ---- second confirmation: the free-running ThreadSanitizer pass (same scenario body, real libtsan, no scheduler) ----
+struct TsanReport
+{
+    std::vector<std::string> a, b;  // top frames (function names without arguments) of the two accesses
+};
+static std::string stripArgs(std::string f)
+{
+    auto p = f.find('(');
+    if (p != std::string::npos && f.compare(0, 9, "operator(") != 0)
+        f = f.substr(0, p);
+    while (!f.empty() && f.back() == ' ')
+        f.pop_back();
+    return f;
+}
+static std::vector<TsanReport> tsanPass(const std::string &scenario, int reps, std::string *raw = nullptr)
+{
+    std::vector<TsanReport> out;
+    char self[4096];
+    ssize_t n = readlink("/proc/self/exe", self, sizeof self - 1);
+    self[n > 0 ? n : 0] = 0;
+    std::string exe = std::string(self).substr(0, std::string(self).rfind('/')) + "/c19_tsan";
+    if (access(exe.c_str(), X_OK) != 0)
+        return out;
+    std::string cmd = "TSAN_OPTIONS='halt_on_error=0 exitcode=0 report_signal_unsafe=0 history_size=4 second_deadlock_stack=0' timeout 120 " + exe + " " + scenario + " " + std::to_string(reps) + " 2>&1 >/dev/null";
+    FILE *f = popen(cmd.c_str(), "r");
+    if (!f)
+        return out;
+    char line[8192];
+    TsanReport cur;
+    int section = 0;  // 1 = first access stack, 2 = second access stack
+    bool in = false;
+    while (fgets(line, sizeof line, f))
+    {
+        std::string l = line;
+        if (raw && raw->size() < 20000)
+            *raw += l;
+        if (l.find("WARNING: ThreadSanitizer: data race") != std::string::npos)
+        {
+            if (in)
+                out.push_back(cur);
+            cur = TsanReport();
+            in = true;
+            section = 0;
+            continue;
+        }
+        if (!in)
+            continue;
+        if (l.find(" of size ") != std::string::npos && (l.find("by thread") != std::string::npos || l.find("by main thread") != std::string::npos))
+        {
+            section = l.find("Previous") != std::string::npos ? 2 : 1;
+            continue;
+        }
+        if (l.find("Location is") != std::string::npos || l.find("Thread T") == 2 || l.find("SUMMARY:") != std::string::npos)
+        {
+            section = 0;
+            continue;
+        }
+        auto h = l.find('#');
+        if (section && h != std::string::npos && h < 8)
+        {
+            // "    #0 function(args) file:line (module+off)"
+            std::string rest = l.substr(l.find(' ', h) + 1);
+            std::string fn = stripArgs(rest);
+            auto &v = section == 1 ? cur.a : cur.b;
+            if (v.size() < 6)
+                v.push_back(fn);
+        }
+    }
+    if (in)
+        out.push_back(cur);
+    pclose(f);
+    return out;
+}
+static bool tsanConfirms(const std::vector<TsanReport> &reps, const std::string &f1, const std::string &f2)
+{
+    auto has = [](const std::vector<std::string> &v, const std::string &f) {
+        for (auto &x : v)
+            if (x == f || x.find(f) != std::string::npos)
+                return true;
+        return false;
+    };
+    for (auto &r : reps)
+        if ((has(r.a, f1) && has(r.b, f2)) || (has(r.a, f2) && has(r.b, f1)))
+            return true;
+    return false;
+}
+#endif
+
 static std::string schedJson(const std::vector<int> &s)
 {
     std::string o = "[";
@@ -421,6 +539,23 @@ static std::string schedJson(const std::vector<int> &s)
     return o + "]";
 }
 
+#ifdef C19_FREERUN
+// usage: c19_tsan <scenario> <repetitions> ; ThreadSanitizer reports go to stderr
+int main(int argc, char **argv)
+{
+    ompl::msg::setLogLevel(ompl::msg::LOG_NONE);
+    std::string name = argc > 1 ? argv[1] : "";
+    int reps = argc > 2 ? atoi(argv[2]) : 20;
+    for (auto &sc : scenarios())
+        if (name == sc.name)
+            for (int i = 0; i < reps; ++i)
+            {
+                tse::Out o;
+                sc.body(o);
+            }
+    return 0;
+}
+#else
 int main(int argc, char **argv)
 {
     ompl::msg::setLogLevel(ompl::msg::LOG_NONE);
@@ -509,12 +644,34 @@ int main(int argc, char **argv)
         // races: on the documented surface they are violation CANDIDATES (confirmed by an exhibited consequence above or by the
         // free-running ThreadSanitizer pass, see bin/vcheck); inside the planners they are recorded only
         std::string rl;
+        std::vector<TsanReport> tsan;
+        bool ranTsan = false;
+        bool consequence = false;  // an oracle failure was exhibited in this scenario (first confirmation route)
+        for (auto &f : E.failures)
+            if (f.first.substr(0, 6) != "FATAL|")
+                consequence = true;
         for (auto &r : E.racesSeen)
         {
-            rl += r.second.str() + " (" + std::to_string(E.racesCount[r.first]) + " schedules); ";
+            std::string status = "recorded";
             if (sc.part1)
-                rep.fail("C19|race|" + job + "|" + r.first, "data race (happens-before monitor, " + std::to_string(E.racesCount[r.first]) + " schedule(s)): " + r.second.str(),
-                         "{\"scenario\":" + vf::jesc(job) + ",\"race\":" + vf::jesc(r.first) + ",\"P\":" + std::to_string(E.P) + "," + setsJson() + "}");
+            {
+                if (!ranTsan)
+                {
+                    tsan = tsanPass(job, 40);
+                    ranTsan = true;
+                    rep.metrics["tsan_reports_" + job] = tsan.size();
+                }
+                bool byTsan = tsanConfirms(tsan, r.second.f1, r.second.f2);
+                if (byTsan || consequence)
+                {
+                    status = std::string("CONFIRMED by ") + (byTsan ? "free-running ThreadSanitizer" : "") + (byTsan && consequence ? " and " : "") + (consequence ? "an exhibited consequence" : "");
+                    rep.fail("C19|race|" + job + "|" + r.first, "data race on the documented thread-safe surface (happens-before monitor, " + std::to_string(E.racesCount[r.first]) + " schedule(s); " + status + "): " + r.second.str(),
+                             "{\"scenario\":" + vf::jesc(job) + ",\"race\":" + vf::jesc(r.first) + ",\"P\":" + std::to_string(E.P) + "," + setsJson() + "}");
+                }
+                else
+                    status = "UNCONFIRMED candidate (not reported by the free-running ThreadSanitizer pass, no consequence exhibited): not a violation";
+            }
+            rl += r.second.str() + " (" + std::to_string(E.racesCount[r.first]) + " schedules; " + status + "); ";
         }
         rep.bounds["races_" + job] = vf::jesc(rl.empty() ? "none" : rl);
         rep.rule = "per scenario: ALL schedules of the real threads with <= P preemptions (scheduling points: thread create/join, mutex lock/unlock, once, atomics at call sites that touch "
@@ -581,3 +738,4 @@ int main(int argc, char **argv)
     };
     return vf::main(argc, argv, H);
 }
+#endif
